@@ -241,13 +241,63 @@ var depthLeaves = []struct {
 	{`(function(){ return 0 }).call(null)`, 2},        // Function.prototype.call (native) + the target
 	{`parseInt.apply(null, ["0"])`, 2},                // apply (native) + parseInt (native)
 	{`String.prototype.charAt.bind("0", 0)() - 0`, 1}, // bound: passthrough site, then the native target
+	{`(new Object(), 0)`, 0},                          // [[Construct]] of a native function enters no scope
+	{`(new Date(0), 0)`, 0},
+	{`(new (function(){ this.a = 0 })()).a`, 1}, // [[Construct]] of a script function: its function scope
+	{`({get p(){ return 0 }}).p`, 1},            // a getter is a call
+	{`eval("0")`, 0},                            // direct eval runs in the caller's scope
+	{`(0, eval)("0")`, 2},                       // indirect eval: the native call + a global scope
+	{`[0].sort(function(){ return 0 })[0]`, 1},  // the comparefn is never called for one element
+	{`"a".replace("a", function(){ return "0" }) - 0`, 2},
+	{`String({toString: function(){ return "0" }}) - 0`, 2}, // native String + the script toString
+	{`({valueOf: function(){ return 0 }}) - 0`, 1},          // ToPrimitive inside an operator calls straight into script
+	{`(function(){ return 0 }).bind(null)()`, 1},
+	{`new (Object.bind(null))() ? 0 : 0`, 1},
+	{`Function("return 0")()`, 1},
+	{`new Function("return 0")()`, 1},
+	{`JSON.parse("0", function(k, v){ return v })`, 2},
+	{`Object.defineProperty({}, "p", {get: function(){ return 0 }}).p`, 1},
+	{`(function(){ return arguments.length }).apply(null, [])`, 2},
+	{`new Array(0).length`, 0},
+	{`RegExp("a") ? 0 : 0`, 1},
+	{`new RegExp("a") ? 0 : 0`, 0},
+	{`Error("x") ? 0 : 0`, 1},
+	{`new Error("x") ? 0 : 0`, 0},
 }
 
-func implDepth(L, d, leaf int) string {
+// entries: how the outermost call is made.  Run, Eval and Otto.Call enter a global scope first (depth 0),
+// Value.Call and Object.Call with nothing running do not: the callee's own scope is the first one.
+var depthEntries = []string{"run", "ottocall", "valuecall", "objectcall", "eval"}
+
+func implDepth(L, d, leaf int, entry string) string {
 	vm := otto.New()
 	vm.SetStackDepthLimit(L)
-	src := fmt.Sprintf(`function f(n){ return n > 0 ? f(n-1) + 1 : (%s) }; f(%d)`, depthLeaves[leaf].js, d-1)
-	v, err := vm.Run(src)
+	def := fmt.Sprintf(`function f(n){ return n > 0 ? f(n-1) + 1 : (%s) }`, depthLeaves[leaf].js)
+	src := fmt.Sprintf(`%s; f(%d)`, def, d-1)
+	var v otto.Value
+	var err error
+	switch entry {
+	case "run":
+		v, err = vm.Run(src)
+	case "eval":
+		v, err = vm.Eval(src)
+	default:
+		if _, err = vm.Run(def + `; var holder = {f: f}`); err != nil {
+			return "setup-err"
+		}
+		switch entry {
+		case "ottocall":
+			v, err = vm.Call("f", nil, d-1)
+		case "valuecall":
+			fn, _ := vm.Get("f")
+			v, err = fn.Call(otto.UndefinedValue(), d-1)
+		case "objectcall":
+			ho, _ := vm.Object("holder")
+			v, err = ho.Call("f", d-1)
+		default:
+			return "bad-op"
+		}
+	}
 	if err == nil {
 		if n, _ := v.ToInteger(); int(n) != d-1 {
 			return "wrong-value:" + v.String()
@@ -377,11 +427,17 @@ func implC18(line string) string {
 	case "depth":
 		fmt.Sscan(f[1], &a)
 		fmt.Sscan(f[2], &b)
-		leaf := 0
+		leaf, entry := 0, "run"
 		if len(f) > 3 {
 			fmt.Sscan(f[3], &leaf)
 		}
-		return implDepth(a, b, leaf)
+		if len(f) > 4 {
+			entry = f[4]
+		}
+		if leaf < 0 || leaf >= len(depthLeaves) {
+			return "bad-op"
+		}
+		return implDepth(a, b, leaf, entry)
 	case "interrupt":
 		fmt.Sscan(f[1], &a)
 		return implInterrupt(a)
@@ -435,6 +491,10 @@ func genC18(c *h.Ctx) {
 		for d := lo; d <= L+3; d++ {
 			for leaf := range depthLeaves {
 				c.Add(fmt.Sprintf("depth %d %d %d", L, d, leaf), fmt.Sprintf("depth:leaf%d", leaf))
+				e := depthEntries[(L+d+leaf)%len(depthEntries)]
+				if e != "run" && (L <= 16 || c.Thorough()) {
+					c.Add(fmt.Sprintf("depth %d %d %d %s", L, d, leaf, e), "depth:entry-"+e)
+				}
 			}
 		}
 	}
